@@ -28,6 +28,12 @@ from concurrent.futures import ThreadPoolExecutor
 
 FINDING = "c08-typecache-masks-unresolvable-fqn"
 
+# natives that no rules file can call (reviewed): bound in the engine, absent from the dsl API
+UNREACHABLE_NATIVES = {
+    "*github.com/quasilyte/go-ruleguard/dsl.MatchedText.String":
+        "dsl.MatchedText has no String method (the type-checker rejects a rules file that calls it), and no native returns a *MatchedText",
+}
+
 
 def jlines(out):
     res = []
@@ -63,6 +69,9 @@ class FT:
         self.deps = oracle_line["deps"]
         self.importable = oracle_line["importable"]
         self.targets = oracle_line["targets"]
+        # what a name denotes among the dependencies of each calling package (the in-memory targets disagree about the
+        # names of their common dependency path)
+        self.deptab = oracle_line.get("deptab") or {}
         self.kidx = {}
         self.vidx = {}
 
@@ -82,6 +91,9 @@ class FT:
         path = self.path(fqn)
         if path is None or pidx < 0 or path not in self.deps[self.targets[pidx]]:
             return ("nodep",)
+        row = self.deptab.get(str(pidx))
+        if row is not None and fqn in row:
+            return ("dep", row[fqn])
         return ("dep", self.host.get(fqn))
 
     def imp(self, fqn):
@@ -172,7 +184,7 @@ def run(c):
     ]
 
     # a private translator binary (main.go + leaf.go + c15.go + locks.go): other families' generators cannot break it
-    c.go2coq_sources = ["locks.go", "locks_loadtime.go"]
+    c.go2coq_sources = ["locks.go", "locks_loadtime.go", "locks_natives.go"]
     c.build_theories()
     c.require_theories("Locks/*.v")
 
@@ -253,18 +265,38 @@ def run(c):
             k = l.get("k")
             if k == "error":
                 c.obligation("harness:c08-" + tag, False, json.dumps(l)[:1500])
+            elif k == "natives":
+                natives_lines.append(l)
+                c.coverage["natives_bound"] = len(l["bound"])
+                c.coverage["natives_called_by_generated_rules"] = len(l["covered"])
+                c.coverage["natives_helper_functions"] = l["helpers"]
+                bad = {n: r for n, r in (l.get("uncovered") or {}).items() if n not in UNREACHABLE_NATIVES}
+                if bad:
+                    c.obligation("harness:c08-natives-covered", False,
+                                 "natives bound in the engine that no generated custom filter / Do function calls "
+                                 "(concurrent runs never evaluate them): " + json.dumps(bad)[:1500])
+                missing = sorted(set(l["bound"]) - set(l["covered"]) - set(l.get("uncovered") or {}))
+                if missing:
+                    c.obligation("harness:c08-natives-accounted", False, "natives neither called nor reported: %s" % missing[:10])
             elif k == "rules-fired":
                 # rules of the set that deliver reports in the sequential baseline (a rule set that exercises nothing shows here)
                 c.coverage["rules_reporting:" + l["ruleset"]] = len(l["rules"])
+                if l["ruleset"].startswith("natives"):
+                    fired_natives[l["ruleset"]] = len(l["rules"])
                 if l["ruleset"].startswith("loadtime") and len(l["rules"]) < 20:
                     c.obligation("harness:c08-loadtime-rules-" + l["ruleset"], False,
                                  "only %d rules of the Load-time-object rule set deliver reports" % len(l["rules"]))
             elif k in ("baseline", "baseline-fresh"):
                 c.count()
                 if not l["agree"]:
-                    c.fail("oracle", "a sequential repetition of a Run (%s) does not deliver the reports of the first lone call" % k,
-                           input={"ruleset": l["ruleset"], "file": l["file"], "seed": c.seed},
-                           expected=l.get("expected"), observed=l.get("other"))
+                    exp, obs = l.get("expected") or {}, l.get("other") or {}
+                    er, orr = exp.get("reports") or [], obs.get("reports") or []
+                    diff = next((i for i, (a, b) in enumerate(zip(er, orr)) if a != b), min(len(er), len(orr)))
+                    c.fail("oracle", "a sequential repetition of a Run (%s) on an engine that has checked other files does not "
+                           "deliver the reports of the lone call on a fresh engine" % k,
+                           input={"ruleset": l["ruleset"], "file": l["file"], "seed": c.seed, "order": l.get("order", "reverse, reused state")},
+                           expected={"reports": len(er), "panic": exp.get("panic"), "first_difference_at": diff, "there": er[diff:diff + 2]},
+                           observed={"reports": len(orr), "panic": obs.get("panic"), "there": orr[diff:diff + 2]})
             elif k == "mismatch":
                 c.fail("oracle", "a concurrent Run delivered other reports than the sequential baseline for that file",
                        input={"ruleset": l["ruleset"], "file": l["file"], "goroutines": l["n"], "phase": l["phase"],
@@ -287,7 +319,37 @@ def run(c):
                     c.sample({"round": {k2: l[k2] for k2 in ("ruleset", "n", "phase", "runs", "reports", "typecache_before",
                                                               "typecache_after", "pkgcache_before", "pkgcache_after", "states")}})
 
+    natives_lines = []
+    fired_natives = {}
     judge_explore(ex_lines, "explore")
+    if natives_lines:
+        nl = natives_lines[0]
+        # every nd(i, x) rule delivers a report for every call, and of the two nf(i, x) rules one does
+        want = nl["do_rules"] + nl["filter_rules"]
+        have = sum(fired_natives.values())
+        if have < want:
+            c.obligation("harness:c08-natives-rules-fire", False,
+                         "%d rules of the natives rule sets deliver reports in the baseline, expected at least %d" % (have, want))
+    else:
+        c.obligation("harness:c08-natives-line", False, "the harness did not report the natives it exercises")
+
+    # the table of natives regenerated from the source (gen_natives) is the table the engine really has
+    if proved is not False and natives_lines:
+        try:
+            gen = open(os.path.join(c.gen, "Gen_Locks.v")).read()
+            m = re.search(r"Definition gen_natives :[^\n]*:= \[(.*?)\n\]\.", gen, re.S)
+            static = set()
+            for q, n in re.findall(r'\("((?:[^"]|"")*)"%string, "((?:[^"]|"")*)"%string, "', m.group(1) if m else ""):
+                static.add(q + "." + n)
+            bound = set(natives_lines[0]["bound"])
+            if static != bound:
+                c.obligation("natives-table-matches", False,
+                             "gen_natives (go2coq, from initEnv / ImportAll) and the natives bound in a loaded engine differ: "
+                             "only static %s, only bound %s" % (sorted(static - bound)[:8], sorted(bound - static)[:8]))
+            else:
+                c.obligation("natives-table-matches", True, "%d natives" % len(bound))
+        except OSError as ex:
+            c.obligation("natives-table-matches", False, repr(ex))
 
     # ------------------------------------------------------------------ K + O: the cache protocol
     def judge_findtype(lines, tag):
@@ -425,9 +487,9 @@ def run(c):
             # the answers denote the named type (independent of which package object they come from)
             for i, (t, s) in enumerate(zip(obs, same)):
                 p, f = ops[i]
-                if t is not None and f in ft.host and ft.host[f] is not None and not s:
+                if t is not None and not s and (ft.host.get(f) is not None or ft.oracle2(p, f) is not None):
                     c.fail("oracle", "FindType returned a type that is not the one the name denotes", input=dict(inp, op=i, pkg=p, fqn=f),
-                           expected=ft.host[f], observed=t)
+                           expected=ft.host.get(f) or ft.oracle2(p, f), observed=t)
                 hit = f in c0["keys"] or f in [g for _, g in ops[:i]]
                 c.nontriv(("ft", kind, "nil" if p < 0 else ("dep" if ft.path(f) in ft.deps[ft.targets[p]] else "nodep"), f,
                            t is not None, hit))
